@@ -225,6 +225,54 @@ CLAIMED["C03"] = dict(
               "implementation oracle on real peer connections",
 )
 
+CLAIMED["C15"] = dict(
+    text="Coq theorems over Model/RateCounter.v, Model/Aimd.v, Model/Rbe.v: the rate counter reports exactly the "
+         "bytes inside its window for every add/rate sequence and clock (C15_window_exact), the integer skeleton of "
+         "the remote bitrate estimator never raises for every packet/verdict sequence and any clock incl. "
+         "non-monotone ones, estimates stay within the configured bounds, at most 255 SSRCs are reported and every "
+         "REMB the estimator produces is encodable (9 theorems). PARTIAL: the floating-point over-use detector / "
+         "Kalman filter is an oracle input (its verdicts are universally quantified); that the real float code "
+         "never raises is observed by the implementation oracle only.",
+    design_ref="5 / C15",
+    note="Detector verdicts and float rates enter the model as inputs recorded from the real objects; the "
+         "correspondence compares integer state and outputs call by call.",
+    technique="Coq proof (induction over operation lists, invariants) + extracted-OCaml correspondence + "
+              "implementation oracle",
+)
+
+CLAIMED["C05"] = dict(
+    text="Totality theorems in Coq for every modelled wire parser: for ALL byte lists the SCTP packet/chunk/parameter/"
+         "RE-CONFIG parsers, RTP/RTCP parsers incl. header extensions and REMB, H.264 / VP8 payload descriptor "
+         "parsers and DCEP receive return a value or the ValueError code, never the crash or out-of-fuel code, and "
+         "the receiver reassembly assertion is unreachable (9 theorems collecting the totality lemmas of C01, C07, "
+         "C08, C12, C13, C16). PARTIAL: 'the transport is still up and handles valid traffic afterwards' and time/"
+         "memory proportionality are observed, not proved: structure-aware malformed datagrams (valid checksum and "
+         "tag, every chunk type, arbitrary fields) are injected into two live RTCSctpTransport endpoints in every "
+         "phase and the association must afterwards drain and deliver probe messages; all real parsers are run on "
+         "each generated datagram with a per-datagram time budget.",
+    design_ref="5 / C05",
+    note="The theorems are about the models; the tie is the correspondence of C07/C08/C16 sub-cases re-run here. "
+         "The DTLS receive loop and rtcrtpreceiver per-packet work are exercised by the oracle only.",
+    technique="Coq proof (totality of fuelled/structural parsers over all byte lists) + extracted-OCaml "
+              "correspondence + live fault-injection oracle",
+)
+
+CLAIMED["C19"] = dict(
+    text="close() terminates under every schedule, is idempotent and leaves no modelled task or thread running: "
+         "proved on Model/Close.v for any number of transceivers and transports (decreasing measure, progress "
+         "without a 'no task failed' hypothesis, nothing-running post-state, stays closed, transports wind down), "
+         "with refutations of the pre-repair code (14 theorems).",
+    design_ref="5 / C19",
+    note="PARTIAL. The theorems cover the handshake logic only. The tie to the implementation is trace inclusion "
+         "plus direct observation on real RTCPeerConnection pairs, which is testing: lifecycle events are recorded "
+         "from outside (class wrappers, a task factory, wrappers around aioice connect/close) and replayed in the "
+         "extracted model, and the model's final state must equal the real objects' state. The scheduler (every "
+         "await may yield; FIFO assumption for the ICE monitor), threads and native libraries are outside the "
+         "theorems.",
+    technique="Coq 8.16.1 interleaving model with invariant, decreasing measure and progress; differential trace "
+              "replay on the extracted model",
+)
+
 CLAIMED["C17"] = dict(
     text="Coq theorems: the serial comparisons uint16/uint32 gt/gte/add - REGENERATED from utils.py on every run - "
          "are irreflexive, antisymmetric, total away from the antipode, consistent with modular addition and "
